@@ -60,6 +60,8 @@ class Ctx:
         self.cfg = ""                 # current configuration tag, set by the runner
         self.counts = {}
         self._mir_cache = {}
+        self.only = None              # optional predicate (rule, key) -> bool: which guarded rule instances run
+        self.rename = None            # optional rule-name rewrite, used when one property reuses another's rules
 
     # ---- facts access ----------------------------------------------------
     def crate(self, name="ruzstd", tag=None):
@@ -105,13 +107,19 @@ class Ctx:
         return [f["name"] for f in a["variants"][0]["fields"]]
 
     # ---- recording -------------------------------------------------------
+    def _r(self, rule):
+        return self.rename(rule) if self.rename else rule
+
     def ok(self, rule, key, where="", msg="", observed=None, inspected=1):
+        rule = self._r(rule)
         self.obs.append(Ob(rule, key, "ok", where, msg, observed=observed, cfg=self.cfg, inspected=inspected))
 
     def fail(self, rule, key, where="", msg="", observed=None, expected=None):
+        rule = self._r(rule)
         self.obs.append(Ob(rule, key, "violation", where, msg, observed, expected, cfg=self.cfg))
 
     def undecided(self, rule, key, where="", msg=""):
+        rule = self._r(rule)
         self.obs.append(Ob(rule, key, "undecided", where, msg, cfg=self.cfg))
 
     def check(self, cond, rule, key, where="", msg="", observed=None, expected=None):
@@ -123,6 +131,9 @@ class Ctx:
 
     def floor(self, rule, n, minimum, what):
         """Fail closed if a rule matched fewer instances than were confirmed by hand."""
+        if self.only is not None:
+            return                    # a partial run of borrowed rules: the borrowing property sets its own floor
+        rule = self._r(rule)
         self.counts["%s[%s]" % (rule, self.cfg)] = n
         if n < minimum:
             self.undecided(rule, "floor", "", "%s: matched %d instances, floor is %d (rule would pass vacuously)"
@@ -133,6 +144,8 @@ class Ctx:
 
     def guard(self, rule, key, fn):
         """Run one rule instance; a missing anchor fails closed as 'undecided'."""
+        if self.only is not None and not self.only(rule, key):
+            return
         try:
             fn()
         except Anchor as e:
